@@ -837,6 +837,24 @@ func evalC08Store(f []string) Result {
 		out = append(out, fmt.Sprintf("S0%s S1%s eq=%v,%v,%v", observeGo(st[0], qa, qn), observeGo(st[1], qa, qn),
 			st[0].Equal(st[1]), st[1].Equal(st[0]), st[0].Equal(nil)))
 	}
+	// The same Adds once more on fresh storages, this time without looking at them in between
+	// (every query above is a call too, and a storage that keeps something from one call to the
+	// next may behave differently when nobody asks): the final state must be the one seen above.
+	if len(steps) > 0 && direct == "ok" {
+		var q [2]*hostsfile.DefaultStorage
+		for i := range q {
+			q[i], _ = hostsfile.NewDefaultStorage()
+		}
+		for si, step := range steps {
+			q[step.idx].Add(&hostsfile.Record{Addr: step.addr, Names: slices.Clone(step.names), Source: fmt.Sprintf("src-%d", si)})
+		}
+		quiet := fmt.Sprintf("S0%s S1%s eq=%v,%v,%v", observeGo(q[0], qa, qn), observeGo(q[1], qa, qn), q[0].Equal(q[1]), q[1].Equal(q[0]), q[0].Equal(nil))
+		if last := out[len(out)-1]; quiet != last {
+			setFail(c07fail("unobserved-run", "the same %d Adds with no query between them end in %s; with queries after every Add they end in %s", len(steps), quiet, last))
+		} else if !q[0].Equal(st[0]) || !st[1].Equal(q[1]) {
+			setFail(c07fail("unobserved-run", "the storages of the run without queries are not Equal to those of the run with queries"))
+		}
+	}
 	class := "trivial-store-no-data"
 	if nontrivial {
 		class = "store"
